@@ -32,8 +32,14 @@ def _parents(R, window):
 def _mk_variants(variants, parent):
     from inscripta.biocantor.gene.variants import VariantInterval, VariantIntervalCollection
 
-    vis = [VariantInterval(s, e, a, "deletion" if len(a) < e - s else ("insertion" if len(a) > e - s else "SNV"),
-                           parent_or_seq_chunk_parent=parent) for (s, e, a) in variants]
+    # the type label is free text to the library (PyVCF labels a padded deletion with a one-base ALT "SNV"): a third of
+    # the variants carry a label that does not describe their shape -- the edit model never looks at it
+    def label(s, e, a):
+        natural = "deletion" if len(a) < e - s else ("insertion" if len(a) > e - s else "SNV")
+        k = (s * 7 + e * 3 + len(a)) % 9
+        return natural if k >= 3 else ("SNV", "MNV", "indel")[k]
+
+    vis = [VariantInterval(s, e, a, label(s, e, a), parent_or_seq_chunk_parent=parent) for (s, e, a) in variants]
     return vis, (VariantIntervalCollection(vis, parent_or_seq_chunk_parent=parent) if vis else None)
 
 
